@@ -556,6 +556,7 @@ class Emit:
     def layer_of(self, g):
         # A(a)
         if g[0] == "call" and g[1] == ("var", "A") and len(g[2]) == 1:
+            self.record_access("A", [g[2][0]])       # `A(a)`: the layer must exist
             return self.atom(g[2][0])
         raise Lost("graph argument is not A(layer)")
 
@@ -711,6 +712,7 @@ class Emit:
                 raise Lost("edge loop over %s" % callee)
             i, g = init[2]
             layer = self.layer_of(g)
+            self.record_access("@vertex", [i])       # the edges of vertex `i`: the vertex must exist in the layer graph
             src = "%s %s %s" % (self.fn.edge_sources[callee], layer, self.atom(i))
             body = list(body)
             tgt = None
